@@ -146,62 +146,13 @@ func registerIntrinsics(e *Engine) {
 		return fr.w.lastRecovered.site
 	})
 
-	// encoding/json is reflection-driven and cannot be executed symbolically: Encode is an
-	// opaque codec that records the value handed to it (harnesses inspect that value tree).
-	reg("(*encoding/json.Encoder).Encode", func(fr *frame, a []value) value {
-		// opaque faithful codec: remember the value tree and write a token that
-		// json.Unmarshal maps back to (a deep copy of) that value
-		fr.w.encoded = append(fr.w.encoded, a[1])
-		fr.w.jsonStore = append(fr.w.jsonStore, deepCopy(a[1], map[*value]*value{}))
-		token := fmt.Sprintf("\x00JSON#%d\n", len(fr.w.jsonStore)-1)
-		enc := (*a[0].(*value)).(structure)
-		if wr, ok := enc[0].(iface); ok && wr.t != nil {
-			if m := fr.findMethod(wr.t, "Write"); m != nil {
-				data := make([]value, len(token))
-				for i := 0; i < len(token); i++ {
-					data[i] = K(8, uint64(token[i]))
-				}
-				fr.w.call(fr, 0, m, []value{wr.v, data})
-			}
-		}
-		return iface{}
-	})
-	reg("encoding/json.Unmarshal", func(fr *frame, a []value) value {
-		data := termsOf(a[0])
-		var sb strings.Builder
-		for _, t := range data {
-			if !t.IsConst() {
-				panic(engineError{"bound: json.Unmarshal of symbolic text (JSON text is not modelled)"})
-			}
-			sb.WriteByte(byte(t.val))
-		}
-		txt := strings.TrimSpace(sb.String())
-		var idx int
-		if n, _ := fmt.Sscanf(txt, "\x00JSON#%d", &idx); n != 1 || idx >= len(fr.w.jsonStore) {
-			return fr.w.eng.newError(fr, "invalid character (JSON text is not modelled by the engine)")
-		}
-		src := fr.w.jsonStore[idx]
-		if it, ok := src.(iface); ok {
-			src = it.v
-		}
-		dst, ok := a[1].(iface)
-		if !ok || dst.t == nil {
-			return fr.w.eng.newError(fr, "json: Unmarshal(nil)")
-		}
-		dp, ok1 := dst.v.(*value)
-		sp, ok2 := src.(*value)
-		if !ok1 || !ok2 || dp == nil || sp == nil {
-			panic(engineError{"json codec stub: unsupported Unmarshal target"})
-		}
-		store(dp, deepCopy(*sp, map[*value]*value{}))
-		return iface{}
-	})
 	reg(apiPkg+".Encoded", func(fr *frame, a []value) value {
 		if len(fr.w.encoded) == 0 {
 			return iface{}
 		}
 		return fr.w.encoded[len(fr.w.encoded)-1]
 	})
+	registerJSON(e)
 	registerVFS(e)
 	registerSummaries(e)
 	registerBytealg(e)
